@@ -609,3 +609,95 @@ pub fn run(ctx: &Ctx) -> i32 {
     }
     report.finish()
 }
+
+
+/// C02's transport part: `read_packet` over hostile byte streams returns a packet or an error - it never panics,
+/// whatever the header announces (every 16-bit extended length, every short length) and wherever the stream ends.
+pub fn hostile_transport(r: &mut Report, shard: usize, nshards: usize, seed: u64, quick: bool) {
+    let one = |r: &mut Report, stream: &[u8], chunking: Chunking, what: &str| {
+        let mut script = Script::new(vec![Entry { bytes: stream.to_vec(), gate: 0 }]);
+        script.eof = true;
+        script.chunking = chunking;
+        let term = Term::new(script);
+        term.0.lock().unwrap().record_payloads = false;
+        let mut transport = PacketTransport { source: term.clone() };
+        r.case_enumerated(true);
+        r.count("inputs.transport", 1);
+        let expected = expected_packets(stream);
+        let case = || json!({"kind": "transport-hostile", "stream_head": hex(&stream[..stream.len().min(16)]), "stream_len": stream.len(), "what": what});
+        for k in 0..2usize {
+            let op = ((stream.len() + k) % 4) as u8;
+            // operations 0/1 (Raw parser): a completely delivered packet must be returned; 2/3 parse it as an acknowledgement
+            match read_via(&mut transport, op) {
+                Err(p) => {
+                    r.violation(&format!("transport {}: {}", OP_NAMES[op as usize], panic_signature(&p)), &format!("{what}: {p}"), case());
+                    return;
+                }
+                Ok(Polled::Runaway) => {
+                    r.inconclusive("harness poll guard fired in the transport part of C02");
+                    return;
+                }
+                Ok(Polled::Stuck) => {
+                    r.violation("transport: read parks at end of stream", what, case());
+                    return;
+                }
+                Ok(Polled::Ready(Ok(_))) if k >= expected.len() => {
+                    r.violation("transport: a packet is returned although the stream ended inside it", what, case());
+                    return;
+                }
+                Ok(Polled::Ready(Err(e))) if k < expected.len() && op < 2 => {
+                    r.violation("transport: a completely delivered packet is rejected", &format!("{what}: {e}"), case());
+                    return;
+                }
+                Ok(Polled::Ready(_)) => {}
+            }
+        }
+    };
+    // every extended header length: end of stream right behind the header, inside the body, and (boundary lengths and a
+    // stride) the complete body
+    let mut l = shard;
+    while l <= 65535 {
+        let header = [0x06u8, 0x0f, 0xff, l as u8, (l >> 8) as u8];
+        one(r, &header, Chunking::Whole, &format!("extended header announcing {l} bytes, then end of stream"));
+        one(r, &header[..4], Chunking::Whole, "extended header cut after the low length byte");
+        if l > 0 {
+            let mut s = header.to_vec();
+            s.extend(std::iter::repeat(0x20).take((l - 1).min(if quick { 64 } else { 4096 })));
+            one(r, &s, Chunking::Whole, &format!("extended header announcing {l} bytes, body cut short"));
+        }
+        if l < 8 || l >= 65528 || (250..=260).contains(&l) || l % (if quick { 4099 } else { 257 }) == 0 {
+            let mut s = header.to_vec();
+            s.extend(std::iter::repeat(0x20).take(l));
+            one(r, &s, Chunking::Whole, &format!("extended header announcing {l} bytes, complete body"));
+            one(r, &s, Chunking::Cuts(vec![1, 2, 3, 4, 5, 6]), &format!("extended header announcing {l} bytes, complete body, header byte-wise"));
+            s.extend([0x80, 0x00, 0x00]);
+            one(r, &s, Chunking::Whole, &format!("extended header announcing {l} bytes, complete body, another packet behind"));
+        }
+        l += nshards;
+    }
+    // every short header
+    for ll in (0..=254usize).filter(|x| x % nshards == shard) {
+        for cc in [0x06u8, 0x80, 0x84, 0x04, 0xff] {
+            let mut s = vec![cc, 0x0f, ll as u8];
+            one(r, &s, Chunking::Whole, "short header, then end of stream");
+            s.extend(std::iter::repeat(0xff).take(ll));
+            one(r, &s, Chunking::Bytewise, "short header, complete body");
+            s.pop();
+            one(r, &s, Chunking::Whole, "short header, body one byte short");
+        }
+    }
+    // random streams
+    let mut rng = Rng::derive(seed, 0xC02_7000 + shard as u64);
+    for _ in 0..(if quick { 20_000 } else { 2_000_000 }) / nshards {
+        let n = rng.below(12) as usize;
+        let mut s = rng.bytes(n);
+        if s.len() > 2 && rng.chance(1, 2) {
+            s[2] = 0xff;
+        }
+        if s.len() > 4 && rng.chance(1, 2) {
+            s[4] = *rng.pick(&[0xffu8, 0x00, 0x01, 0x7f, 0x80]);
+            s[3] = *rng.pick(&[0xffu8, 0xfb, 0xfa, 0x00, 0x01]);
+        }
+        one(r, &s, if rng.chance(1, 2) { Chunking::Whole } else { Chunking::Bytewise }, "random bytes");
+    }
+}
